@@ -513,10 +513,163 @@ func runFwConfig(c *hx.Ctx) {
 		cw.Add(lit, kind, recClass == 0 && len(rec.Rules) > 0, map[string]any{"op": "conf", "yaml": text, "inbound": inbound, "rec_class": recClass, "fw_class": fwClass,
 			"rules": jrules, "probes": jprobes})
 	}
+	// 3. whole firewalls through the real NewFirewallFromConfig: default_local_cidr_any true / false / absent x own
+	// certificate with and without unsafe networks (v4, v6) x rules with and without local_cidr in BOTH directions, probed
+	// in both directions with local addresses inside the VPN networks, inside the unsafe networks and outside both.
+	nFull := c.N / 3
+	for fi := 0; fi < nFull; fi++ {
+		my := nebula.VerifFwCert{Name: "me", Networks: []netip.Prefix{mp("10.0.0.1/24")}}
+		if c.Chance(0.4) {
+			my.Networks = append(my.Networks, mp("fd00::1/64"))
+		}
+		switch c.Intn(5) {
+		case 0:
+		case 1, 2:
+			my.Unsafe = []netip.Prefix{mp("192.168.0.0/24")}
+		case 3:
+			my.Unsafe = []netip.Prefix{mp("fd99::/48")}
+		default:
+			my.Unsafe = []netip.Prefix{mp("192.168.0.0/24"), mp("fd99::/48")}
+		}
+		flagLit := hx.None()
+		flagText := ""
+		switch c.Intn(5) {
+		case 0:
+		case 1:
+			flagLit, flagText = hx.Some("false"), "  default_local_cidr_any: false\n"
+		default:
+			flagLit, flagText = hx.Some("true"), "  default_local_cidr_any: true\n"
+		}
+		genDir := func() []any {
+			n := c.Intn(3)
+			if c.Chance(0.6) {
+				n = 1 + c.Intn(2)
+			}
+			var rs []any
+			for i := 0; i < n; i++ {
+				m := map[string]any{"proto": pickAny(c, []any{"tcp", "udp", "any", "icmp"}), "port": pickAny(c, []any{"80", "any", "80-90", 443})}
+				switch c.Intn(4) {
+				case 0:
+					m["group"] = "a"
+				case 1:
+					m["cidr"] = pickAny(c, []any{"10.0.0.0/24", "fd00::/64", "0.0.0.0/0"})
+				default:
+					m["host"] = pickAny(c, []any{"any", "any", "h1"})
+				}
+				if c.Chance(0.4) {
+					m["local_cidr"] = pickAny(c, []any{"any", "192.168.0.0/24", "10.0.0.0/24", "fd99::/48", "192.168.0.0/25", "10.0.0.1/32"})
+				}
+				if c.Chance(0.04) {
+					m["port"] = pickAny(c, []any{"90-80", "x"}) // the whole load fails
+				}
+				rs = append(rs, m)
+			}
+			return rs
+		}
+		outRules, inRules := genDir(), genDir()
+		text := "firewall:\n" + flagText
+		outAbsent, inAbsent := c.Chance(0.05), c.Chance(0.05)
+		if !outAbsent {
+			text += "  outbound: " + yText(outRules) + "\n"
+		}
+		if !inAbsent {
+			text += "  inbound: " + yText(inRules) + "\n"
+		}
+		cfg, err := nebula.VerifFwLoadYAML(text)
+		if err != nil {
+			panic("generated YAML does not load: " + text)
+		}
+		tblLit := func(key string, absent bool) (string, bool) {
+			if absent {
+				return hx.None(), true
+			}
+			l, ok := yLit(cfg.Get("firewall." + key))
+			return hx.Some(l), ok
+		}
+		outLit, ok1 := tblLit("outbound", outAbsent)
+		inLit, ok2 := tblLit("inbound", inAbsent)
+		if !ok1 || !ok2 {
+			continue
+		}
+		strs := map[string]bool{}
+		collectStrings(cfg.Get("firewall"), strs)
+		keys := make([]string, 0, len(strs))
+		for s := range strs {
+			keys = append(keys, s)
+		}
+		sort.Strings(keys)
+		var ppLits []string
+		for _, s := range keys {
+			if p, err := netip.ParsePrefix(s); err == nil {
+				ppLits = append(ppLits, hx.Tuple(hx.Str(s), fwPfxLit(p)))
+			}
+		}
+		// the records of what the text denotes (for aiming the probes only)
+		recOut, _, _ := nebula.VerifRulesFromC(false, cfg)
+		recIn, _, _ := nebula.VerifRulesFromC(true, cfg)
+		cfg2, _ := nebula.VerifFwLoadYAML(text) // fresh parse: convertRule rewrites the map it is given
+		fw, fok, fpanic := nebula.VerifNewFirewallFromConfig(my, cfg2)
+		fwClass := 0
+		if fpanic {
+			fwClass = 2
+		} else if !fok {
+			fwClass = 1
+		}
+		var probeLits []string
+		var jprobes []map[string]any
+		nAllow, nNoRule := 0, 0
+		if fwClass == 0 {
+			w := &fwWorld{c: c, my: my, pool: map[string]string{}}
+			locals := []netip.Addr{ma("10.0.0.1"), ma("10.0.0.1"), ma("10.0.0.9"), ma("192.168.0.5"), ma("192.168.0.200"), ma("172.16.0.1"), ma("fd99::5"), ma("fd00::1"), ma("fd98::1")}
+			np := 10 + c.Intn(6)
+			for pi := 0; pi < np; pi++ {
+				incoming := pi%2 == 0
+				peer := nebula.VerifFwCert{Name: "h1", Groups: []string{"a"}, Issuer: "s9", Networks: []netip.Prefix{mp("10.0.0.77/24"), mp("fd00::77/64")}}
+				if c.Chance(0.15) {
+					peer.Name, peer.Groups = "other", nil
+				}
+				pkt := firewall.Packet{Protocol: nebula.VerifFwProtoTCP, LocalPort: 80, RemotePort: 80}
+				rs := recOut.Rules
+				if incoming {
+					rs = recIn.Rules
+				}
+				if len(rs) > 0 {
+					r := rs[c.Intn(len(rs))]
+					r.Cidr, r.LocalCidr = "", "" // aim protocol and port only; addresses are set below
+					w.aim(r, &peer, &pkt)
+				}
+				pkt.LocalAddr = locals[c.Intn(len(locals))]
+				if pkt.LocalAddr.Is4() {
+					pkt.RemoteAddr = ma("10.0.0.77")
+				} else {
+					pkt.RemoteAddr = ma("fd00::77")
+				}
+				hp := fw.NewPeer(peer)
+				fw.ResetConntrack()
+				class, before, after := fw.Drop(pkt, incoming, hp, nil)
+				if class == nebula.VerifFwAllow {
+					nAllow++
+				}
+				if class == nebula.VerifFwNoRule {
+					nNoRule++
+				}
+				probeLits = append(probeLits, hx.App("mkProbe", hx.Bool(true), fwCertLit(peer), fwPktLit(pkt), hx.Bool(incoming), hx.Bool(false),
+					hx.Bool(before), hx.N(uint64(class)), hx.Bool(after)))
+				jprobes = append(jprobes, map[string]any{"peer": fmt.Sprintf("%+v", peer), "pkt": fmt.Sprintf("%+v", pkt), "incoming": incoming, "class": class})
+			}
+		}
+		lit := hx.App("CFull", flagLit, inLit, outLit, hx.List(ppLits), fwPfxList(my.Networks), fwPfxList(my.Unsafe), hx.N(uint64(fwClass)), hx.List(probeLits))
+		kind := []string{"full-loaded", "full-refused", "full-panic"}[fwClass]
+		if len(my.Unsafe) > 0 {
+			kind += "+unsafe"
+		}
+		cw.Add(lit, kind, nAllow > 0 && nNoRule > 0, map[string]any{"op": "full", "yaml": text, "my": fmt.Sprintf("%+v", my), "fw_class": fwClass, "probes": jprobes})
+	}
 	if len(failures) > 0 {
 		cw.Meta("failures", failures)
 	}
 	cw.Close("port texts: fixed table of " + strconv.Itoa(len(fwPortTexts)) + " strings (digits, signs, blanks, hex, empty, huge, ranges with blanks, reversed ranges, unicode digits) + generated; " +
 		"configurations: YAML text of 0-4 rule maps with arbitrary field types through nebula's config loader into a recorder and a real Firewall, then 4-8 Drop probes; " +
-		"non-trivial = accepted port text / configuration that loaded at least one rule; distinct by literal")
+		"whole firewalls through NewFirewallFromConfig (default_local_cidr_any true/false/absent x unsafe networks x rules with/without local_cidr, both directions), 10-15 Drop probes with local addresses in the VPN networks, in the unsafe networks and outside; " +
+		"non-trivial = accepted port text / configuration that loaded at least one rule / firewall that both allowed and refused for lack of a rule; distinct by literal")
 }
